@@ -2,7 +2,7 @@
    Only ExtrOcamlBasic's directives are used; N, Z, positive and nat stay
    extracted datatypes.  Run coqc on this file from /verif/ocaml. *)
 From Coq Require Extraction ExtrOcamlBasic.
-From NTRIP Require Import Base Bits Crc Time Classify Frame FrameSpec TimeSpec History Msm MsmSpec Station Html Queue.
+From NTRIP Require Import Base Bits Crc Time Classify Frame FrameSpec TimeSpec History Msm MsmSpec Station Html Queue Retry.
 Extraction Language OCaml.
 Extraction "model.ml"
   bytes_okb slice
@@ -16,4 +16,5 @@ Extraction "model.ml"
   week_start enc event_frame admissibleb answer run_frames run_history report_ok msm_time_frame frame_of_payload
   decode_msm4 decode_msm7 decode1005 decode1006 msm_frame view wf_amsm payload_bytes msm_bits
   station_frame wf_station station_bits
-  sanitise no_markup new_queue qadd snapshot lastn.
+  sanitise no_markup new_queue qadd snapshot lastn
+  run_reader data_of.
